@@ -210,3 +210,32 @@ m("c13-unknown-extension-ignored", "C13", "daemon/core/config.py", "        rais
 m("c13-sigint-exit-1", "C13", "daemon/runners/meta_runner.py", "        except KeyboardInterrupt:\n            self._logger.info(\"runner interrupted\")", "        except KeyboardInterrupt:\n            self._logger.info(\"runner interrupted\")\n            raise SystemExit(1)")
 m("c13-services-started-twice", "C13", "daemon/runners/service.py", "            self._started = True\n            runner.register_payload(service.run, flavour=self.flavour)", "            self._started = True\n            runner.register_payload(service.run, flavour=self.flavour)\n            if self.flavour is threading:\n                runner.register_payload(service.run, flavour=self.flavour)")
 m("c13-pyconfig-module-dropped", "C13", "daemon/config/python.py", "    sys.modules[module_name] = module\n    spec.loader.exec_module(module)\n    return module", "    spec.loader.exec_module(module)\n    module.__dict__.clear()\n    return None")
+# ---- C02
+m("c02-close-only-first-runner", "C02", "daemon/runners/meta_runner.py", "        for runner in self._runners.values():\n            await runner.aclose()", "        for runner in list(self._runners.values())[1:]:\n            await runner.aclose()")
+m("c02-trio-aclose-fire-and-forget", "C02", "daemon/runners/meta_runner.py", "        await asyncio.gather(*runner_tasks, return_exceptions=True)\n        self._runners.clear()", "        self._runners.clear()")
+m("c02-asyncio-cancel-once-no-wait", "C02", "daemon/runners/asyncio_runner.py", "                else:\n                    task.cancel()\n            await asyncio.sleep(0.1)", "                else:\n                    task.cancel()\n            break")
+m("c02-f10-revert", "C02", "daemon/runners/trio_runner.py", "            try:\n                await trio_run\n            except BaseException:  # noqa: B036\n                # we are being cancelled, results of payloads are no longer of interest\n                pass\n            raise", "            raise")
+m("c02-f11-revert", "C02", "daemon/runners/asyncio_runner.py", "        if self._stopped.is_set():\n            # nobody will cancel", "        if False:\n            # nobody will cancel")
+m("c02-no-shield", "C02", "daemon/runners/meta_runner.py", "        except BaseException:\n            await asyncio.shield(self._aclose_runners(runner_tasks))\n            raise", "        except BaseException:\n            await self._aclose_runners(runner_tasks)\n            raise")
+# ---- C03
+m("c03-started-never-set", "C03", "daemon/runners/service.py", "            self._started = True\n", "            pass\n")
+m("c03-kwargs-dropped", "C03", "daemon/runners/service.py", "    def adopt(self, payload, *args, flavour: ModuleType, **kwargs):\n        \"\"\"\n        Concurrently run ``payload`` in the background\n\n        If ``*args*`` and/or ``**kwargs`` are provided, pass them to ``payload``\n        upon execution.\n        \"\"\"\n        if args or kwargs:\n            payload = functools.partial(payload, *args, **kwargs)", "    def adopt(self, payload, *args, flavour: ModuleType, **kwargs):\n        if args or kwargs:\n            payload = functools.partial(payload, *args)")
+m("c03-adopt-waits", "C03", "daemon/runners/service.py", "        self._meta_runner.register_payload(payload, flavour=flavour)", "        if flavour is threading and self.running.is_set():\n            self._meta_runner.run_payload(payload, flavour=flavour)\n        else:\n            self._meta_runner.register_payload(payload, flavour=flavour)")
+m("c03-queue-first-only", "C03", "daemon/runners/meta_runner.py", "            self.register_payload(*queue, flavour=flavour)", "            self.register_payload(*queue[:3], flavour=flavour)")
+m("c03-f2-revert", "C03", "daemon/runners/trio_runner.py", "        try:\n            self._submit_tasks.send_nowait(payload)\n        except trio.ClosedResourceError:\n            # the channel is closed while trio still finishes the cleanup of payloads\n            self._logger.warning(f\"discarding payload {payload} during shutdown\")", "        self._submit_tasks.send_nowait(payload)")
+m("c03-services-always-trio", "C03", "daemon/runners/service.py", "            runner.register_payload(service.run, flavour=self.flavour)", "            runner.register_payload(service.run, flavour=self.flavour if self.flavour is not __import__('asyncio') else trio)")
+# ---- C10
+m("c10-execute-kwargs-dropped", "C10", "daemon/runners/service.py", "    def execute(self, payload, *args, flavour: ModuleType, **kwargs):\n        \"\"\"\n        Synchronously run ``payload`` and provide its output\n\n        If ``*args*`` and/or ``**kwargs`` are provided, pass them to ``payload``\n        upon execution.\n        \"\"\"\n        if args or kwargs:\n            payload = functools.partial(payload, *args, **kwargs)", "    def execute(self, payload, *args, flavour: ModuleType, **kwargs):\n        if args or kwargs:\n            payload = functools.partial(payload, *args)")
+m("c10-thread-result-copied", "C10", "daemon/runners/thread_runner.py", "        return payload()", "        import copy\n        return copy.copy(payload())")
+m("c10-f8-revert", "C10", "daemon/runners/trio_runner.py", "            self._trio_token.run_sync_soon(self._submit_payload, payload)", "            trio.from_thread.run(self._submit_tasks.send, payload, trio_token=self._trio_token)")
+m("c10-asyncio-exception-as-failure", "C10", "daemon/runners/asyncio_runner.py", "        future = asyncio.run_coroutine_threadsafe(payload(), self.asyncio_loop)\n        return future.result()", "        future = asyncio.run_coroutine_threadsafe(payload(), self.asyncio_loop)\n        try:\n            return future.result()\n        except LookupError as err:\n            self.asyncio_loop.call_soon_threadsafe(self._payload_failure.set_exception, err)\n            raise")
+# ---- C11
+m("c11-trio-execute-own-run", "C11", "daemon/runners/trio_runner.py", "        return trio.from_thread.run(payload, trio_token=self._trio_token)", "        return trio.run(payload)")
+m("c11-asyncio-execute-own-loop", "C11", "daemon/runners/asyncio_runner.py", "        future = asyncio.run_coroutine_threadsafe(payload(), self.asyncio_loop)\n        return future.result()", "        return asyncio.run(payload())")
+m("c11-thread-in-loop-thread", "C11", "daemon/runners/thread_runner.py", "        thread = threading.Thread(\n            target=self._monitor_payload, args=(payload,), daemon=True\n        )\n        thread.start()", "        self.asyncio_loop.call_soon_threadsafe(self._monitor_payload, payload)")
+# ---- C12
+m("c12-guard-not-released-on-error", "C12", "daemon/runners/guard.py", "                try:\n                    return fnc(*args, **kwargs)\n                finally:\n                    fnc_guard.release()", "                result = fnc(*args, **kwargs)\n                fnc_guard.release()\n                return result")
+m("c12-guard-per-instance", "C12", "daemon/runners/guard.py", "            if fnc_guard.acquire(blocking=False):", "            if True:")
+m("c12-kbint-reraised", "C12", "daemon/runners/meta_runner.py", "        except KeyboardInterrupt:\n            self._logger.info(\"runner interrupted\")", "        except KeyboardInterrupt:\n            self._logger.info(\"runner interrupted\")\n            raise")
+m("c12-f9a-revert", "C12", "daemon/runners/meta_runner.py", "        for runner in list(self._runners.values()):\n            runner.stop()", "        for runner in self._runners.values():\n            runner.stop()")
+m("c12-shutdown-skips-stop", "C12", "daemon/runners/service.py", "        self._is_shutdown.wait()\n        self._meta_runner.stop()", "        self._is_shutdown.wait()")
